@@ -29,11 +29,14 @@ func init() {
 		},
 	})
 	register(&PropConfig{
-		ID:       "C06",
-		Probes:   []string{"parser.TemplateFileParser.Parse#probe"},
-		Replay:   replayC06,
-		Level:    "other",
-		Packages: []string{"./parser/v2", "./parser/v2/goexpression"},
+		ID:     "C06",
+		Probes: []string{"parser.TemplateFileParser.Parse#probe"},
+		// the template-file level of the parser (the loop over top-level Go code, comments and declarations, and
+		// whatever helpers it calls) is under a thin safety contract only: its bounded oracle runs in the quick tier too
+		QuickProbes: []string{"parser.TemplateFileParser.Parse#probe"},
+		Replay:      replayC06,
+		Level:       "other",
+		Packages:    []string{"./parser/v2", "./parser/v2/goexpression"},
 		Assume: []string{
 			"partial claim: only the functions that cut Go expressions out of the input and record their ranges; totality / termination / no-panic of the combinator parser on arbitrary bytes are not decided by this technique",
 			"the goexpression extractors return 0 <= start <= end <= len(content) (the upper clamp is proved on goexpression.extract; the lower bound comes from go/parser's token positions and is assumed); SliceArgs / Func return a prefix of the text they were given",
